@@ -78,6 +78,20 @@ CLAIMED = {
                   "inclusion in dml-chart.xsd automata, structural twin/rewriter/allocator comparison",
         design="DESIGN.md §4 C07",
     ),
+    "C09": dict(
+        level="other",
+        text="Round-trip necessary conditions visible in the code's shape: (R9.1) for the 141 getter/setter pairs of the proxy layer "
+             "the XML locations read by the getter and written by the setter (attribute of a schema-typed element class, or a "
+             "declared child element) are resolved through typed delegation chains and must intersect - 106 pairs are decided, "
+             "the rest are counted as not analysed; (R9.2) convert_to_xml and convert_from_xml of every simple type, Adjustment "
+             "normalisation included, are evaluated to affine forms and must be reciprocal (rounding mode = quantum recorded); "
+             "(R9.3) an OptionalAttribute's declared default equals the schema default whenever the schema declares one, compared "
+             "through value interpretation; (R9.4) refusals in setters and their helpers raise TypeError/ValueError. NOT decided: "
+             "persistence across save/re-open, independence of sibling properties, placeholder inheritance.",
+        technique="static analysis: typed delegation-chain resolution of getter/setter XML locations, affine evaluation of "
+                  "conversion functions, table comparison of declared vs schema defaults",
+        design="DESIGN.md §4 C09",
+    ),
     "C10": dict(
         level="proof",
         text="Exhaustive decision over a finite obligation set: every child-element declaration (successors tuple) of every "
